@@ -304,6 +304,9 @@ func (s *Server) childFromSpec(spec Obj) Obj {
 	if sp, ok := spec["spec"]; ok {
 		o["spec"] = normTree(sp)
 	}
+	if st, ok := spec["status"]; ok {
+		o["status"] = normTree(st) // a hook that (needlessly) hands a status back inside a desired child
+	}
 	for k, v := range AsMap(spec["top"]) {
 		o[k] = normTree(v)
 	}
